@@ -5,11 +5,12 @@ from zneval import *
 RAISES = {
     "thr": lambda: throw("@exc", s("boom")),
     "cust": lambda: throw("E1", s("x")),
+    "custm": lambda: throw("E3", s("x")),      # a type defined in the module file of the raising method
     "idx": lambda: ex(idx(lst(num(1)), num(5))),
     "div": lambda: decl("Q", bin_("div", num(1), bin_("sub", num(2), num(2)))),
     "undef": lambda: ex(var("NOPE")),
 }
-RAISE_CLASS = {"thr": "@exc", "cust": "E1", "idx": "@exc", "div": "@exc", "undef": "@exc"}
+RAISE_CLASS = {"thr": "@exc", "cust": "E1", "custm": "E3", "idx": "@exc", "div": "@exc", "undef": "@exc"}
 CLASSES = [cls("E1", [("@content", s("custom1"))]), cls("E2", [("@content", s("custom2"))])]
 
 
@@ -22,6 +23,7 @@ def raise_expr(rk):
 def raise_funcs(rk):
     if rk == "thr": return [func("RF", [], [mark("RF-in"), throw("@exc", s("boom")), mark("RF-dead")])]
     if rk == "cust": return [func("RF", [], [mark("RF-in"), throw("E1", s("x")), mark("RF-dead")])]
+    if rk == "custm": return [func("RF", [], [mark("RF-in"), throw("E3", s("x")), mark("RF-dead")])]
     return []
 EXPR_SITES = ["iter-target", "while-cond", "if-cond", "elif-cond", "call-arg", "decl-rhs", "list-item", "ret-value"]
 
@@ -75,7 +77,7 @@ def handler(level, hk, rk, he):
 MODNAMES = ["模甲", "模乙", "模丙"]
 
 
-def chain_prog(depth, rk, sw, hks, he, followups=True, pre=None, levels=None):
+def chain_prog(depth, rk, sw, hks, he, followups=True, pre=None, levels=None, selective=False):
     """hks: handler kind per level 0..depth (0 = main).
     levels: module of F1..Fd (0 = main file, k = k-th module file; non-decreasing, each step to the same or the next
     module) - the call chain then crosses module boundaries; None = everything in the main file."""
@@ -113,6 +115,15 @@ def chain_prog(depth, rk, sw, hks, he, followups=True, pre=None, levels=None):
         nm = max(lv)
         mods = [dict(name=MODNAMES[k], imports=sorted(set(b for a, b in zip(lv, lv[1:]) if a == k + 1 and b != a))) for k in range(nm)]
         imports = sorted(set(([lv[0]] if lv[0] else []) + [b for a, b in zip(lv, lv[1:]) if a == 0 and b != 0]))
-    p = prog(main, funcs=funcs, classes=CLASSES, catches=handler(0, hks[0], rk, he), mods=mods, imports=imports)
-    p["tag"] = "d%d/%s/%s/%s/%s" % (depth, rk, sw, ",".join(hks), he) + ("/mods" + "".join(str(x) for x in lv) if levels and any(lv) else "")
+    classes = list(CLASSES)
+    if rk == "custm":
+        # the exception's type lives in the module file of the method that raises it; handlers name it by its NAME, wherever they are
+        c3 = cls("E3", [("@content", s("custom3"))]); c3["mod"] = lv[depth - 1] if depth else 0
+        classes.append(c3)
+    p = prog(main, funcs=funcs, classes=classes, catches=handler(0, hks[0], rk, he), mods=mods, imports=imports)
+    if selective and mods:
+        # the main file lists only the METHODS it calls (导入“模”之F1、...): types of the module are not among its names
+        p["importsel"] = {str(k): sorted(set(f["name"] for f in funcs if f.get("mod") == k and f["name"].startswith("F"))) for k in imports}
+        p["importsel"] = {k: v for k, v in p["importsel"].items() if v}
+    p["tag"] = "d%d/%s/%s/%s/%s" % (depth, rk, sw, ",".join(hks), he) + ("/mods" + "".join(str(x) for x in lv) if levels and any(lv) else "") + ("/sel" if selective else "")
     return p
